@@ -108,7 +108,7 @@ def run(tier, rep, replay=None):
 
 
 MANIFEST = {
- "text": "PureCalls.tla models the library as unknown deterministic functions over a pool of value tokens with a memo (same operation + same argument values => same result, regardless of the receiver's previous contents, other objects, library globals or earlier calls) and a frame condition (only the receiver changes); TLC explores a toy implementation exhaustively and FINDS the seeded generator-aliasing and copy-aliasing bugs (non-vacuity). LazyInit.tla: the atomic getter satisfies 'every return equals the sequential value' for 3 threads, the publish-then-fill variant does not (TLC gives the schedule). The sequential driver runs random call sequences with deliberate aliasing (argument = receiver, decoding into used objects with the first decode of each input into a fresh one, mutation of returned generators / identities / copies) over 15 domains: the four group.Group implementations (elements, scalars, polynomials), ecc/bls12381 G1/G2/Scalar/Pair, goldilocks, FourQ, CSIDH keys, Kyber768 / ML-KEM-768 / ML-DSA-65 key objects, BLS and OPRF private keys with cached public keys, five XOFs (clone / write / read); after every call the tokens of ALL pool objects are logged and TLC validates the history against PureCalls. The concurrent driver (built with -race, one process per kind) releases 8 goroutines on a fresh shared object per round for 49 kinds (7 HPKE KEMs + suites, all kem/schemes, all sign/schemes, OPRF keys and servers, BLS keys, threshold-RSA key shares, blind RSA signer, groups incl. secret sharing, pairings, X25519); TLC checks every return equals the sequential value and that no data race was reported.",
+ "text": "PureCalls.tla models the library as unknown deterministic functions over a pool of value tokens with a memo (same operation + same argument values => same result, regardless of the receiver's previous contents, other objects, library globals or earlier calls) and a frame condition (only the receiver changes); TLC explores a toy implementation exhaustively and FINDS the seeded generator-aliasing and copy-aliasing bugs (non-vacuity). LazyInit.tla: the atomic getter satisfies 'every return equals the sequential value' for 3 threads, the publish-then-fill variant does not (TLC gives the schedule). The sequential driver runs random call sequences with deliberate aliasing (argument = receiver, decoding into used objects with the first decode of each input into a fresh one, mutation of returned generators / identities / copies) over 15 domains: the four group.Group implementations (elements, scalars, polynomials), ecc/bls12381 G1/G2/Scalar/Pair, goldilocks, FourQ, CSIDH keys, Kyber768 / ML-KEM-768 / ML-DSA-65 key objects, BLS and OPRF private keys with cached public keys, five XOFs (clone / write / read); after every call the tokens of ALL pool objects are logged and TLC validates the history against PureCalls. The concurrent driver (built with -race, one process per kind) releases 8 goroutines on a fresh shared object per round for 49 kinds (7 HPKE KEMs + suites, all kem/schemes, all sign/schemes, OPRF keys and servers, BLS keys, threshold-RSA key shares, blind RSA signer, groups incl. secret sharing, pairings, X25519); TLC checks every return equals the sequential value and that no data race was reported. Further kinds: concurrent use of one partially-blind-RSA Verifier, one Prio3 instance, one SIKE private key, one Goldilocks point, one FourQ encoding / Curve4Q peer key; public keys handed out by BLS / OPRF private keys (decoding into them must not change the private key); Lagrange polynomials; and retain lines - 70 kinds of decoded object must serialise to the same bytes after the buffer they were decoded from is overwritten.",
  "note": "Schedules are those produced by the runtime (2 rounds quick, 10 thorough) plus the race detector's happens-before inference; call sequences are seeded random.",
  "technique": "TLC exhaustive check of toy models with seeded bugs (non-vacuity) + TLC stateful trace validation of recorded call sequences (determinism memo + frame condition) + race-instrumented concurrent histories judged by TLC",
 }
